@@ -27,9 +27,10 @@ const (
 	MRange      // a whole traversal (expanded per key before checking)
 	MRangeVisit // pseudo-op: what one traversal reported for one key
 	MSize
+	MRangeMut // a traversal whose visitor mutated the container (only structural checks apply)
 )
 
-var mopNames = [...]string{"Load", "Store", "LoadOrStore", "LoadAndStore", "LoadOrCompute", "Compute", "LoadAndDelete", "Delete", "Clear", "Range", "RangeVisit", "Size"}
+var mopNames = [...]string{"Load", "Store", "LoadOrStore", "LoadAndStore", "LoadOrCompute", "Compute", "LoadAndDelete", "Delete", "Clear", "Range", "RangeVisit", "Size", "RangeWithMutatingVisitor"}
 
 func (o MOp) String() string { return mopNames[o] }
 
